@@ -178,7 +178,7 @@ SYNTAXES = ["dot", "getattr", "import", "alias", "from", "indirect"]
 
 
 def canon_real(r):
-    if r.startswith("other:"):
+    if r.startswith("other:") or r.startswith("sig:"):
         return "other"
     if r.startswith("err:"):
         return "none"
@@ -290,7 +290,7 @@ def gen_cases(rng, base, tier):
         cases.append(Case(cid("m"), "nested-override", "A", custom=True, override=[(nm, "new")], lookups=names3,
                           evals=attempts(nm, (1, 3), "overridden", 2)))
     # 4. sampled subsets (each run twice: the denylist and the overrides are Go maps)
-    nsub = 150 if tier == "quick" else 5000
+    nsub = 500 if tier == "quick" else 6000
     for _ in range(nsub):
         dn = []
         for _ in range(1 + rng.below(6)):
@@ -324,7 +324,7 @@ def gen_cases(rng, base, tier):
     weird = ["", ".", "..", "os.", ".os", "os..getenv", "os.getenv.", "os.getenv.x", "OS", "os.GETENV", " os", "os .getenv",
              "os.__name__", "__name__", "os.__module__", "getenv.__module__", "os.stdin.x", "ös", "os.geténv", "nosuch",
              "nosuch.x", "os.nosuch", "len.x", "math.PI.x", "os/getenv", "os.getenv os", "os,getenv", "a.b.c.d.e", "time.RFC3339.x"]
-    nmal = 80 if tier == "quick" else 1500
+    nmal = 200 if tier == "quick" else 2500
     for j in range(nmal):
         if j < len(weird):
             nm = weird[j]
@@ -587,7 +587,8 @@ def _body(res, tier, repo, obs, model, base, base_text, hash_equal, aliases, pro
             nm = o["name"]
             registered = o["old"] != 0 and nm in regnames and o["old"] not in exempt
             toplevel = "." not in nm
-            shadowed = any(nm == d or nm.startswith(d + ".") for d in c.deny)
+            shadowed = (any(nm == d or nm.startswith(d + ".") for d in c.deny) or
+                        any(n2 != nm and nm.startswith(n2 + ".") for n2, _ in c.override))
             applies = (toplevel and nm != "") or (registered and not shadowed)
             if applies and not kind.startswith("ref:"):
                 if o["seen"] != "new:%d" % i:
@@ -608,6 +609,8 @@ def _body(res, tier, repo, obs, model, base, base_text, hash_equal, aliases, pro
                         tgt = d["obj"]
                 if tgt and r == "id:%d" % tgt:
                     why.append("script %r obtains denied object %d" % (src, tgt))
+                if tgt and r == "sig:%d" % tgt:
+                    why.append("script %r obtains another configuration's copy of denied object %d" % (src, tgt))
             elif role == "overridden":
                 for o in g.get("over") or []:
                     b = base.lookup(path, (1, 3) if c.custom else (1,))
